@@ -57,6 +57,67 @@ def run_driver(exe, seed, histories, ops, out, thorough=False, replay=None, time
         return -999, "driver timeout"
 
 
+def spec_behaviours(tier, seed, d):
+    """Behaviours of the ArtSeq model to be replayed into the real index classes (spec -> code):
+    an edge cover of the complete TLC state graph of the 8-key instances (every insert / remove /
+    clear transition incl. the duplicate / absent self-loops), as op files for seq_driver --replay.
+    Returns {"fixed": path, "var": path}, stats."""
+    import random
+    import tlaparse
+    out = {}
+    stats = {}
+    for tag, cfg in (("fixed", "cfg/ArtSeq/keys8q.cfg"), ("var", "cfg/ArtSeq/keysvarq.cfg")):
+        dump = os.path.join(d, "artseq_" + tag)
+        r = vlib.tlc("ArtSeqMC", cfg, workers=4, dump=dump, timeout=1500)
+        if r.error or r.violation:
+            raise vlib.CheckBroken("ArtSeqMC %s: %s" % (cfg, r.error or r.violation))
+        g = tlaparse.load_dot(dump + ".dot")
+        os.unlink(dump + ".dot")
+        paths = tlaparse.edge_cover(g, skip_self_loops=False)
+        total = len(paths)
+        if tier == "quick":
+            random.Random(seed).shuffle(paths)
+            paths = paths[:250]
+        keys = set()
+        lines = []
+        for p in paths:
+            lines.append("N")
+            for (_, lab, args, _) in p:
+                if lab == "DoInsert":
+                    k = args[0]
+                    keys.add(k)
+                    lines.append("I %s %d" % ("".join("%02x" % b for b in k), args[1]["n"]))
+                elif lab == "DoRemove":
+                    keys.add(args[0])
+                    lines.append("R %s" % "".join("%02x" % b for b in args[0]))
+                elif lab == "DoClear":
+                    lines.append("C")
+            for k in sorted(keys):
+                lines.append("G %s" % "".join("%02x" % b for b in k))
+            lines.append("E")
+            lines.append("S")
+        path = os.path.join(d, "replay_%s.ops" % tag)
+        with open(path, "w") as f:
+            f.write("\n".join(lines) + "\n")
+        out[tag] = path
+        stats[tag] = {"states": len(g.states), "edges": g.nedges, "cover_paths": total, "replayed": len(paths)}
+    return out, stats
+
+
+def pad_u64(ops_path, d):
+    """the same behaviours for 64-bit keys: key bytes right-aligned in 8 bytes"""
+    out = os.path.join(d, os.path.basename(ops_path) + ".u64")
+    with open(ops_path) as f, open(out, "w") as g:
+        for ln in f:
+            p = ln.split()
+            if p and p[0] in "IRG" and len(p) > 1:
+                p[1] = p[1].rjust(16, "0")
+                g.write(" ".join(p) + "\n")
+            else:
+                g.write(ln)
+    return out
+
+
 def split_histories(path):
     """-> header line, list of (first_line_no, [lines]) per history."""
     with open(path) as f:
@@ -185,11 +246,20 @@ def run(prop, tier, seed):
     for (db, key), exe in exes.items():
         for r in range(runs_per_inst):
             s = seed * 1000 + r * 7 + db * 3 + key
-            jobs.append((db, key, exe, s, os.path.join(d, "t_%d_%d_%d.ndjson" % (db, key, s))))
+            jobs.append((db, key, exe, s, os.path.join(d, "t_%d_%d_%d.ndjson" % (db, key, s)), None))
+    # spec -> code: behaviours chosen by TLC replayed into the six instantiations
+    beh, beh_stats = spec_behaviours(tier, seed, d)
+    u64ops = pad_u64(beh["fixed"], d)
+    for (db, key), exe in exes.items():
+        if key == 0:
+            jobs.append((db, key, exe, 0, os.path.join(d, "replay_%d_%d_fixed.ndjson" % (db, key)), u64ops))
+        else:
+            jobs.append((db, key, exe, 0, os.path.join(d, "replay_%d_%d_fixed.ndjson" % (db, key)), beh["fixed"]))
+            jobs.append((db, key, exe, 0, os.path.join(d, "replay_%d_%d_var.ndjson" % (db, key)), beh["var"]))
 
     def work(job):
-        db, key, exe, s, out = job
-        rc, err = run_driver(exe, s, histories, ops, out, thorough=(tier == "thorough"))
+        db, key, exe, s, out, replay = job
+        rc, err = run_driver(exe, s, histories, ops, out, thorough=(tier == "thorough"), replay=replay)
         rej, cov, states, nev = ([], {}, 0, 0)
         if os.path.exists(out) and os.path.getsize(out) > 0:
             rej, cov, states, nev = validate_isolating(out, mode)
@@ -203,7 +273,7 @@ def run(prop, tier, seed):
     skipped = 0
     samples = []
     for job, rc, err, rej, cov, st, nev in results:
-        db, key, exe, s, out = job
+        db, key, exe, s, out, replay = job
         inst = "%s<%s>" % (DB_NAMES[db], KEY_NAMES[key])
         states += st
         nevents += nev
@@ -251,6 +321,7 @@ def run(prop, tier, seed):
         "samples": samples,
         "spec_model_distinct_states": dist, "spec_model_generated_states": gen,
         "spec_model_configs": cfgs,
+        "spec_behaviours_replayed_into_impl": beh_stats,
         "trace_events_validated": nevents,
         "per_case_counts_from_accepted_traces": cov_total,
         "cases_never_taken": never,
